@@ -215,7 +215,53 @@ pub fn gen_utf8(rng: &mut Rng, max: usize) -> String {
     s
 }
 
+/// registered operation / job-template attribute names that are not among the crate's constants
+const REGISTERED_NAMES: &[&str] = &[
+    "system-uri", "printer-id", "document-uri", "document-name", "document-format", "compression", "ipp-attribute-fidelity",
+    "job-k-octets", "job-impressions", "job-media-sheets", "which-jobs", "my-jobs", "limit", "message", "output-device-uuid",
+    "notify-subscription-id", "resource-id", "document-number", "first-index", "job-ids",
+];
+
+/// a string of exactly n octets that mixes one-, two-, three- and four-octet characters (character boundaries fall
+/// at many different offsets)
+pub fn multibyte_exact(rng: &mut Rng, n: usize) -> String {
+    let pool = ['a', 'é', 'Ж', '中', '🖨', 'z', 'ß'];
+    let mut s = String::new();
+    // a short random ASCII prefix shifts every later boundary
+    for _ in 0..rng.usize(0, 3).min(n) {
+        s.push('p');
+    }
+    while s.len() < n {
+        let c = *rng.pick(&pool);
+        if s.len() + c.len_utf8() <= n {
+            s.push(c);
+        } else {
+            s.push('q');
+        }
+    }
+    s
+}
+
+/// natural-language part of the with-language syntaxes: usually a short tag, sometimes long and multi-byte
+/// (RFC 8011 limits it to 63 octets; a peer need not comply)
+pub fn gen_language(rng: &mut Rng) -> String {
+    match rng.below(12) {
+        0 => multibyte_exact(rng, *rng.clone().pick(&[62usize, 63, 64, 65, 100, 255])),
+        1 => (0..*rng.clone().pick(&[63usize, 64, 65])).map(|_| 'x').collect(),
+        2 => rng.pick(&["en", "en-us", "fr-ca", "de", "zh-hant-tw", "i-klingon"]).to_string(),
+        _ => gen_ascii(rng, 8),
+    }
+}
+
 pub fn gen_name(rng: &mut Rng) -> String {
+    if rng.chance(1, 16) {
+        // long names: lengths around the limits that matter (64, 255 = longest legal name, 256), ASCII or multi-byte
+        let n = *rng.pick(&[61usize, 63, 64, 65, 127, 128, 200, 254, 255, 255, 256, 300]);
+        return if rng.chance(1, 2) { (0..n).map(|i| (b'a' + (i % 26) as u8) as char).collect() } else { multibyte_exact(rng, n) };
+    }
+    if rng.chance(1, 12) {
+        return rng.pick(REGISTERED_NAMES).to_string();
+    }
     match rng.below(4) {
         0 | 1 => rng.pick(ATTR_NAMES).to_string(),
         2 => {
@@ -295,11 +341,11 @@ fn gen_mscalar(rng: &mut Rng, c: &ShapeCfg, kind: u64) -> MValue {
         3 => MValue::TextWithoutLanguage(s(rng)),
         4 => MValue::NameWithoutLanguage(s(rng)),
         5 => MValue::TextWithLanguage {
-            language: gen_ascii(rng, 8),
+            language: gen_language(rng),
             text: s(rng),
         },
         6 => MValue::NameWithLanguage {
-            language: gen_ascii(rng, 8),
+            language: gen_language(rng),
             name: s(rng),
         },
         7 => MValue::Charset(gen_ascii(rng, 12)),
@@ -476,7 +522,7 @@ fn gen_wscalar(rng: &mut Rng, c: &ShapeCfg, in_coll: bool) -> WVal {
         0x31 => rng.bytes(11),
         0x32 => rng.bytes(9),
         0x35 | 0x36 => {
-            let l = gen_ascii(rng, 8).into_bytes();
+            let l = gen_language(rng).into_bytes();
             let t = gen_text_bytes(rng, c.max_str);
             let mut v = (l.len() as u16).to_be_bytes().to_vec();
             v.extend_from_slice(&l);
@@ -566,6 +612,18 @@ pub fn gen_wmsg(rng: &mut Rng, c: &ShapeCfg) -> WMsg {
             attrs.push(WAttr { name, values });
         }
         groups.push(WGroup { tag, attrs });
+    }
+    // 1 message in 5 starts the way real ones do: attributes-charset (from a vocabulary that includes legacy
+    // charsets) and attributes-natural-language first
+    if rng.chance(1, 5) {
+        if groups.is_empty() {
+            groups.push(WGroup { tag: 0x01, attrs: vec![] });
+        }
+        let cs = *rng.pick(&["utf-8", "utf-8", "iso-8859-1", "ISO-8859-1", "us-ascii", "iso-8859-15", "windows-1252", "utf-16"]);
+        let g = &mut groups[0];
+        g.attrs.retain(|a| a.name != b"attributes-charset" && a.name != b"attributes-natural-language");
+        g.attrs.insert(0, WAttr { name: b"attributes-natural-language".to_vec(), values: vec![WVal::Scalar { tag: 0x48, body: gen_language(rng).into_bytes() }] });
+        g.attrs.insert(0, WAttr { name: b"attributes-charset".to_vec(), values: vec![WVal::Scalar { tag: 0x47, body: cs.as_bytes().to_vec() }] });
     }
     WMsg {
         version: *rng.pick(&[0x0101u16, 0x0200, 0x0100, 0x0202, 0xffff, 0x0000]),
